@@ -19,6 +19,12 @@ Spec == Init /\ [][Next]_vars
 IsCycleOk == l <= N /\ Cur.ev = "CycleEnd" /\ Cur.a[2] = 0 /\ Cur.a[3] = 0
 C05_UndoneRun == IsCycleOk => (Cur.mode \in {1, -1}) /\ Cur.pwm = Cur.a[1]
 
+\* a changed PWM value is counted as a third-party change (at least one count once somebody else really changed the value and
+\* a cycle followed), and nothing is counted in a run in which nobody touched the fan - whatever went wrong at start-up
+C05_CountedRun == (l <= N /\ Cur.ev = "C05Count") =>
+  /\ (Cur.effective > 0 /\ Cur.cycles >= 10 => Cur.unexpected > 0)
+  /\ (Cur.quiet => Cur.unexpected = 0)
+
 Report == l = N + 1 => PrintT(<<"TRACE-DONE", N, "DRIFT", <<>>>>)
 TraceAccepted == TLCGet("stats").diameter = N + 1
 ==============================================================================
